@@ -92,7 +92,7 @@ CLAIMED = {
     ),
     "C08": (
         "proptest-driven generation of (UTxO set, outputs, strategy, random schedule) with the library's thread RNG replaced by a harness-fed schedule (verif-hooks), soundness oracle over the builder's real input set",
-        "Generated-input and generated-schedule search: the random words consumed by the random-improve strategies are part of the generated, shrinkable input, so every selection / improvement-swap / fee-top-up outcome is reachable and replayable. Scenarios include pre-existing inputs, deposits, withdrawals (implicit input) and a caller-requested minimum fee at or below the real fee. On success the builder's actual inputs (read back from a built body, valued from the scenario's own UTxO map) must contain the earlier inputs, add only distinct offered UTxOs, and cover outputs + deposits + min_fee() in lovelace and every requested asset; largest-first must add a top-k set that is minimal, and may report insufficiency only if all offered UTxOs do not suffice. The swap-then-top-up class the property singles out is measured.",
+        "Generated-input and generated-schedule search: the random words consumed by the random-improve strategies are part of the generated, shrinkable input, so every selection / improvement-swap / fee-top-up outcome is reachable and replayable. Scenarios include pre-existing inputs, deposits, withdrawals (implicit input) and a caller-requested minimum fee at or below the real fee. Offered UTxOs may carry tokens under every strategy and reference scripts (with a price); the combined select-and-change entry points are judged inside whole builder histories (sub-check combined, C06's fee oracle). On success the builder's actual inputs (read back from a built body, valued from the scenario's own UTxO map) must contain the earlier inputs, add only distinct offered UTxOs, and cover outputs + deposits + min_fee() in lovelace and every requested asset; largest-first must add a top-k set that is minimal, and may report insufficiency only if all offered UTxOs do not suffice. The swap-then-top-up class the property singles out is measured.",
         "Trusts the hook's gen_range mapping (monotone floor(word*n/2^64)); amounts below 2^40; offered UTxOs form a set.",
         "DESIGN.md §5 C08",
     ),
